@@ -5,7 +5,7 @@ in seeded/<id>/meta.json what was run and what the checks reported. /repo itself
 import json, os, re, subprocess, sys
 V = os.path.dirname(os.path.dirname(os.path.abspath(__file__)))
 M = os.environ.get("MUT", "/var/tmp/mut")
-EXTRA = {"C09": ["C09", "C15"], "C15": ["C15", "C09"], "C14": ["C14", "C09"], "C02": ["C02", "C06"], "C06": ["C06", "C02"],
+EXTRA = {"C09": ["C09", "C15"], "C15": ["C15", "C09", "C13"], "C14": ["C14", "C09"], "C02": ["C02", "C06"], "C06": ["C06", "C02"],
          "C10": ["C10", "C11"], "C11": ["C11", "C10"],
          "C05": ["C05", "C01", "C03", "C04", "C20"], "C01": ["C01", "C05", "C16", "C19"], "C03": ["C03", "C04", "C20"], "C04": ["C04", "C03"],
          "C07": ["C07", "C18"], "C18": ["C18", "C07"], "C08": ["C08"], "C13": ["C13"], "C16": ["C16", "C08"]}
